@@ -58,7 +58,8 @@ RULE = (
     'other 132 ordered pairs on the trees with <= 3 entries); x '
     'nest_on_conflict x trim_extensions x each given '
     'at construction or per call (the constructor then holds the opposite '
-    'value); x every os.scandir order of every scanned directory with <= 3 '
+    'value; quick: both at construction or both per call, thorough: each '
+    'independently); x every os.scandir order of every scanned directory with <= 3 '
     'entries (sorted and reversed for 4).  Each case populates the same map '
     'twice; the whole oracle runs after the first and after the second '
     'population (so one- and two-population histories are both covered).  '
@@ -175,11 +176,17 @@ def rule_sets(family):
     raise HarnessError(f'unknown rule family {family!r}')
 
 
-def option_sets(backlinks=False):
-    if backlinks:
-        return [(n, t, 'ctor', 'ctor') for n in (1, 0) for t in (0, 1)]
+def option_sets(how='all'):
+    """how: 'ctor' (backlinks parts) | 'same' (quick: both options at
+    construction or both per call) | 'all' (each independently)."""
+    if how == 'ctor':
+        hows = [('ctor', 'ctor')]
+    elif how == 'same':
+        hows = [(h, h) for h in HOWS]
+    else:
+        hows = [(nh, th) for nh in HOWS for th in HOWS]
     return [(n, t, nh, th) for n in (1, 0) for t in (0, 1)
-            for nh in HOWS for th in HOWS]
+            for nh, th in hows]
 
 
 # ---------------------------------------------------------------------------
@@ -952,29 +959,30 @@ RUNNERS = {'mirror': run_mirror, 'backlinks': run_backlinks}
 # enumeration
 # ---------------------------------------------------------------------------
 def parts(tier):
-    """part name -> (runner kind, max entries per tree, rule family)."""
+    """part name -> (runner kind, max entries per tree, rule family, how
+    the options are given)."""
     if tier == 'quick':
-        return {'mirror': ('mirror', 3, 'core'),
-                'backlinks': ('backlinks', 3, 'core')}
-    return {'mirror': ('mirror', 4, 'core'),
-            'mirror-pairs': ('mirror', 3, 'other-pairs'),
-            'backlinks': ('backlinks', 4, 'core'),
-            'backlinks-pairs': ('backlinks', 3, 'other-pairs')}
+        return {'mirror': ('mirror', 3, 'core', 'same'),
+                'backlinks': ('backlinks', 3, 'core', 'ctor')}
+    return {'mirror': ('mirror', 4, 'core', 'all'),
+            'mirror-pairs': ('mirror', 3, 'other-pairs', 'all'),
+            'backlinks': ('backlinks', 4, 'core', 'ctor'),
+            'backlinks-pairs': ('backlinks', 3, 'other-pairs', 'ctor')}
 
 
 def part_params(spec):
-    kind, n, family = spec
+    kind, n, family, how = spec
     return dict(checks=kind, max_entries=n, rule_family=family,
                 trees=len(trees(n)), rule_sets=len(rule_sets(family)),
-                option_sets=len(option_sets(kind == 'backlinks')),
+                options_given=how, option_sets=len(option_sets(how)),
                 listing_orders=('sorted only' if kind == 'backlinks' else
                                 'all for <= 3 entries, both extremes for 4'))
 
 
 def cases_for(spec):
-    kind, n, family = spec
+    kind, n, family, how = spec
     rsets = rule_sets(family)
-    osets = option_sets(backlinks=(kind == 'backlinks'))
+    osets = option_sets(how)
     out = []
     for tree in trees(n):
         for rules in rsets:
